@@ -129,6 +129,13 @@ def sort_case(draw):
                                    'sort_by']), max_size=2))
     by = draw(st.integers(1, 2))        # obs-level keys are ['_oid', 'cond', 'sess']
     post = draw(st.lists(op_record(['split_obs', 'odd_even', 'subset_obs']), max_size=1))
+    if draw(st.booleans()):
+        # look at a subset, sort the same object, take a subset by the same descriptor again
+        k = draw(st.integers(0, 60))
+        sel = draw(st.integers(1, 2))
+        pre = pre + [{'op': 'subset_obs', 'a': sel, 'b': k % 2, 'm': 3 * k, 'xs': []}]
+        post = [{'op': 'subset_obs', 'a': sel, 'b': (k + 1) % 2, 'm': 3 * draw(st.integers(0, 60)) + 1,
+                 'xs': []}] + post
     return {'spec': spec, 'ops': pre + [{'op': 'sort_by', 'a': by, 'b': 0, 'm': 0, 'xs': []}] + post}
 
 
